@@ -39,7 +39,7 @@ REAL_VS_STUB = {"real": ["sdeint, check_contract, BaseSDESolver.integrate, all s
 PROBES = ("ts_dtype_differs", "logqp_runs", "logqp_increments_compared", "chunks_total", "chunks_ge_4", "crash_fired_f", "crash_fired_g", "crash_fired_bm", "crash_not_reached",
           "extra_state_carried", "negative_control_differs", "negative_control_same", "intermediate_outputs",
           "real_bm", "stub_bm", "f32", "final_step_clipped", "durable_pickle", "fresh_sde_per_attempt", "via_sdeint_adjoint",
-          "restart_at_every_grid_point", "chunk_ts_as_list", "sde_form_plain", "sde_form_fused", "sde_form_renamed")
+          "restart_at_every_grid_point", "chunk_ts_as_list", "sde_form_plain", "sde_form_fused", "sde_form_renamed", "real_bm_fresh_object_per_execution")
 STATE_MEASURE = "distinct (solver, noise type, steps, cut pattern, crash pattern) tuples"
 
 
@@ -86,7 +86,8 @@ def gen_case(seed, tier, idx):
     every = r3.random() < 0.08
     if every:
         cuts = list(range(1, n))
-    extra3 = {"durable": "pickle" if r3.random() < 0.35 else "alias", "fresh_sde": r3.random() < 0.35,
+    fresh_bm = r3.random() < 0.35  # (only used by real-bm runs)
+    extra3 = {"fresh_bm": fresh_bm, "durable": "pickle" if r3.random() < 0.35 else "alias", "fresh_sde": r3.random() < 0.35,
               "entry": "sdeint_adjoint" if r3.random() < 0.15 else "sdeint", "list_ts": r3.random() < 0.15}
     return {"solver": solver, "sde": spec, "dtype": dtype, "t0": fx(t0), "dt": fx(dt), "T": fx(T), **extra3,
             "bm": "real" if rs.random() < 0.25 else "stub", "bm_seed": rs.randrange(1 << 30),
@@ -132,21 +133,33 @@ def run_case(case, keep_log=False):
         tsv = torch.tensor([xf(case["t0"]), xf(case["T"])], dtype=tts)
         t0, T = float(tsv[0]), float(tsv[1])
         # the Brownian peer (shared by the one-shot run and all chunks)
-        plan = None
-        if case["bm"] == "stub":
-            inner = stubs.make_stub_brownian((B, m), bdt, case["bm_seed"], solver["levy"])
-            probes["stub_bm"] = 1
-        else:
-            inner = torchsde.BrownianInterval(t0=t0, t1=T, size=(B, m), dtype=bdt, entropy=case["bm_seed"],
-                                              levy_area_approximation=solver["levy"], cache_size=case["cache_size"])
-            plan = seams.FaultPlan()
-            seams.install_faulty_cache(inner, plan)
+        plans = []
+
+        def new_inner():
+            if case["bm"] == "stub":
+                return stubs.make_stub_brownian((B, m), bdt, case["bm_seed"], solver["levy"])
+            inner_ = torchsde.BrownianInterval(t0=t0, t1=T, size=(B, m), dtype=bdt, entropy=case["bm_seed"],
+                                               levy_area_approximation=solver["levy"], cache_size=case["cache_size"])
+            plan_ = seams.FaultPlan()
+            seams.install_faulty_cache(inner_, plan_)
             if case["fault_rate"] > 0:
-                r = random.Random(case["fault_seed"])
+                r = random.Random(case["fault_seed"] + len(plans))
                 k = int(60 * case["fault_rate"]) + 1
-                plan.begin_op([{"kind": "miss", "at": r.randrange(0, 2000)} for _ in range(k)] +
-                              [{"kind": "drop", "at": r.randrange(0, 2000)} for _ in range(k)])
-            probes["real_bm"] = 1
+                plan_.begin_op([{"kind": "miss", "at": r.randrange(0, 2000)} for _ in range(k)] +
+                               [{"kind": "drop", "at": r.randrange(0, 2000)} for _ in range(k)])
+            plans.append(plan_)
+            return inner_
+
+        # Real-bm runs either reuse ONE object for the probe call, the one-shot reference and all chunks (every request
+        # after the first call is a repeat), or (`fresh_bm`, round 3, added after C13-bm_shape_probe) give each of the
+        # three executions its own newly built object with the same entropy and options: one-shot and chunked runs
+        # issue the same request sequence, so by seeded reproducibility they must see the same path. No crashes are
+        # injected in that mode (an aborted attempt legitimately adds requests).
+        fresh_bm = case["bm"] == "real" and bool(case.get("fresh_bm"))
+        inner = new_inner()
+        probes["stub_bm" if case["bm"] == "stub" else "real_bm"] = 1
+        probes["real_bm_fresh_object_per_execution"] = int(fresh_bm)
+        plan = plans[0] if plans else None
 
         lrs = {}
 
@@ -188,6 +201,8 @@ def run_case(case, keep_log=False):
         # --- one-shot reference with the intermediate outputs and the restart points as output times
         cuts = sorted(set(min(c, n) for c in case["cuts"] if 0 < min(c, n) < n))
         sde = stubs.make_sde(spec, case["dtype"], allow_renamed=True)
+        if fresh_bm:
+            inner = new_inner()
         rec = stubs.make_recorder(inner)
         ts_ref = torch.tensor(sorted(set([t0] + outs + [grid[c] for c in cuts] + [T])), dtype=tts)
         ys_ref, extra_ref = call(sde, rec, ts_ref, y0, None, "oneshot")
@@ -202,6 +217,8 @@ def run_case(case, keep_log=False):
         # --- chunked execution with crashes
         bounds = [0] + cuts + [n]
         chunks = list(zip(bounds[:-1], bounds[1:]))
+        if fresh_bm:
+            inner = new_inner()
         probes["chunks_total"] = len(chunks)
         probes["chunks_ge_4"] = int(len(chunks) >= 4)
         sde = stubs.make_sde(spec, case["dtype"], allow_renamed=True)
@@ -220,7 +237,7 @@ def run_case(case, keep_log=False):
             ts_c = torch.tensor([ga] + inner_outs + [gb], dtype=tts)
             ts_arg = [float(t) for t in ts_c] if (case.get("list_ts") and tts == tdt) else ts_c
             probes["chunk_ts_as_list"] += int(ts_arg is not ts_c)
-            pending = [c for c in case["crashes"] if c["chunk"] == ci]
+            pending = [] if fresh_bm else [c for c in case["crashes"] if c["chunk"] == ci]
             while True:
                 rec = stubs.make_recorder(inner)
                 if case.get("fresh_sde"):
@@ -304,8 +321,9 @@ def run_case(case, keep_log=False):
                 y2 = ys2[-1]
             probes["negative_control_same" if torch.equal(y2, ys_ref[-1]) else "negative_control_differs"] = 1
         states = [f"{solver['method']}/{solver['sde_type']}/{spec['noise_type']}/{n}/{bounds}/{crash_pat}"]
-        if plan is not None:
-            fired = dict(plan.fired)
+        for pl in plans:
+            for kf, vf in pl.fired.items():
+                fired[kf] = fired.get(kf, 0) + vf
     except Violation as v:
         violation = v.to_json()
     crash_fired = probes["crash_fired_f"] + probes["crash_fired_g"] + probes["crash_fired_bm"]
@@ -339,7 +357,7 @@ def simplify(case):
             x = copy.deepcopy(case)
             x["crashes"][i]["at"] = c["at"] // 2
             yield x
-    for key, val in (("bm", "stub"), ("dtype", "float64"), ("fault_rate", 0.0), ("cache_size", 45), ("ts_dtype", "same"), ("logqp", False), ("entry", "sdeint"), ("durable", "alias"), ("fresh_sde", False), ("list_ts", False), ("bm_dtype", "same"), ("adaptive_only", None)):
+    for key, val in (("bm", "stub"), ("dtype", "float64"), ("fault_rate", 0.0), ("cache_size", 45), ("ts_dtype", "same"), ("logqp", False), ("entry", "sdeint"), ("fresh_bm", False), ("durable", "alias"), ("fresh_sde", False), ("list_ts", False), ("bm_dtype", "same"), ("adaptive_only", None)):
         if case.get(key) != val:
             c = copy.deepcopy(case)
             c[key] = val
